@@ -1,1 +1,128 @@
-From PdfV Require Import Model.Interp.
+(* C05 -- Text model: each glyph gets the position, advance and state PDF assigns.
+   Property theorems only.  Model/Interp.v mirrors PDFPageInterpreter.execute and its do_*
+   methods, PDFTextDevice.render_string_horizontal and PDFLayoutAnalyzer.render_char; the
+   arithmetic of Td/TD/T*, of render_string's parameters and of LTChar.adv is regenerated from
+   pdfinterp.py / pdfdevice.py / layout.py on every run (Gen/TextOps.v).
+   FULL STATEMENT: for every program the glyph list equals that of the ISO 9.3-9.4 machine.
+   PROVED: every state transition of the model that touches the text position IS the ISO
+   transition (C05_Td .. C05_displacement, for every commutative ring), the glyph loop places
+   glyphs at the running sum of ISO displacements (C05_glyph_positions), forms and ill-typed
+   operators are neutral, q/Q restores.  The assembly of these step lemmas into one simulation
+   theorem over whole programs is not carried out; whole programs are covered by the differential
+   runs against the implementation and against the harness's ISO reference machine. *)
+From Coq Require Import ZArith QArith List Bool Ring.
+From PdfV Require Import Base.Num Base.CV Gen.Geom Gen.TextOps Model.Lexer Model.Interp Model.InterpRun
+  Proofs.LexerProofs Proofs.TextLaws Proofs.InterpProofs.
+Import ListNotations.
+
+Section AnyCommutativeRing.
+  Variable R : Type.
+  Variables (rO rI : R) (radd rmul rsub : R -> R -> R) (ropp : R -> R).
+  Variable Rth : ring_theory rO rI radd rmul rsub ropp (@eq R).
+  Variables (dv : R -> R -> R) (le lt eqb : R -> R -> bool) (ofz : Z -> R) (tr fl : R -> Z).
+  Let o : NumOps R := mkNumOps R radd rsub rmul dv ropp le lt eqb ofz tr fl.
+  Notation T tx ty := (rI, rO, rO, rI, tx, ty).
+  Notation Tm_of := (Tm_of R radd rmul rsub ropp dv le lt eqb ofz tr fl).
+
+  (* Td: Tlm := [1 0 0 1 tx ty] x Tlm, Tm := Tlm *)
+  Theorem C05_Td : forall tx ty m,
+    do_Td_matrix o tx ty m = mult_matrix o (T tx ty) m /\
+    Tm_of (do_Td_matrix o tx ty m) (rO, rO) = mult_matrix o (T tx ty) m.
+  Proof. exact (Td_is_iso R rO rI radd rmul rsub ropp Rth dv le lt eqb ofz tr fl). Qed.
+
+  Theorem C05_TD : forall tx ty m, do_TD_matrix o tx ty m = mult_matrix o (T tx ty) m.
+  Proof. exact (TD_is_iso R rO rI radd rmul rsub ropp Rth dv le lt eqb ofz tr fl). Qed.
+
+  (* T* = 0 -TL Td, with the stored leading l = -TL *)
+  Theorem C05_Tstar : forall l m,
+    do_T_a_matrix o l m = mult_matrix o (T rO l) m /\ do_T_a_matrix o l m = do_Td_matrix o rO l m.
+  Proof. exact (Tstar_is_iso R rO rI radd rmul rsub ropp Rth dv le lt eqb ofz tr fl). Qed.
+
+  (* advancing by tx inside the line: Tm := [1 0 0 1 tx 0] x Tm *)
+  Theorem C05_advance : forall m x y tx,
+    Tm_of m (radd x tx, y) = mult_matrix o (T tx rO) (Tm_of m (x, y)).
+  Proof. exact (advance_is_iso R rO rI radd rmul rsub ropp Rth dv le lt eqb ofz tr fl). Qed.
+
+  (* the matrix reported with a glyph is Tm x CTM *)
+  Theorem C05_glyph_matrix : forall tm ctm x y,
+    translate_matrix o (mult_matrix o tm ctm) (x, y) = mult_matrix o (Tm_of tm (x, y)) ctm.
+  Proof. exact (glyph_matrix_is_iso R rO rI radd rmul rsub ropp Rth dv le lt eqb ofz tr fl). Qed.
+
+  (* tx = (w0 * Tfs + Tc + Tw) * Th *)
+  Theorem C05_displacement : forall w0 fs th tc tw,
+    radd (ltchar_adv o w0 fs th) (rmul tc th) = rmul (radd (rmul w0 fs) tc) th /\
+    radd (radd (ltchar_adv o w0 fs th) (rmul tc th)) (rmul tw th) = rmul (radd (radd (rmul w0 fs) tc) tw) th.
+  Proof. exact (displacement_is_iso R rO rI radd rmul rsub ropp Rth dv le lt eqb ofz tr fl). Qed.
+End AnyCommutativeRing.
+
+(* every string, every width table: glyph k sits at the sum of the ISO displacements before it *)
+Theorem C05_glyph_positions : forall f fs tc tw th rise m nc cids x y o,
+  let '(x', o') := show_cids f fs th (tc * th) (tw * th) rise m nc cids x y o in
+  Forall2 Qeq (model_positions f fs th (tc * th) (tw * th) cids x) (iso_positions f fs tc tw th cids x) /\
+  o' = rev (map (fun cx => EGlyph (fst cx) (translate_matrix QOps m (snd cx, y))
+                                  (ltchar_adv QOps (fwidth f (fst cx)) fs th) (fid f) fs rise (fdescent f) nc)
+                (combine cids (model_positions f fs th (tc * th) (tw * th) cids x))) ++ o.
+Proof. exact show_cids_iso. Qed.
+
+(* invoking a form XObject changes nothing in the caller's state, whatever the form does *)
+Theorem C05_form_neutral : forall res run_form s n matrix own body,
+  sync s -> assocZ n (res_xobjs res) = Some (XForm matrix own body) ->
+  same_state (apply_op res run_form KDo [OName n] s) s /\
+  out (apply_op res run_form KDo [OName n] s) =
+    EEndFig n :: run_form (mmul matrix (ctm s)) (match own with Some r => r | None => res end) body
+                          (EBeginFig n (mmul matrix (devctm s)) :: out s).
+Proof. exact form_neutral. Qed.
+
+(* ... and [sync] holds in every reachable state *)
+Theorem C05_sync_invariant : forall res run_form prog s, sync s -> sync (run_items res run_form s prog).
+Proof. intros res run_form prog. exact (run_sync res run_form prog). Qed.
+
+(* operators whose operands are not numbers, or are missing, affect nothing but the operand stack *)
+Theorem C05_illtyped_noop : forall res run_form k args s, numeric_op k = true -> length args = nargs k ->
+  all_floats args = None -> apply_op res run_form k args s = s.
+Proof. exact illtyped_noop. Qed.
+
+Theorem C05_missing_operands : forall res run_form k s, (0 < nargs k)%nat -> (length (argstack s) < nargs k)%nat ->
+  step res run_form s (IOp k) = set_args s [].
+Proof. exact missing_operands_noop. Qed.
+
+Theorem C05_qQ_restores : forall res run_form prog s, balanced prog 0 = true ->
+  let s' := run_items res run_form s (IOp Kq :: prog ++ [IOp KQ]) in
+  ctm s' = ctm s /\ devctm s' = ctm s /\ ts s' = ts s /\ gs s' = gs s /\ gstack s' = gstack s.
+Proof. exact qQ_restores. Qed.
+
+(* splitting the content across streams (the tokenizer simply continues with the next stream's
+   buffers): the state after all buffers is that of the byte automaton on the concatenation *)
+Theorem C05_split_streams : forall (streams : list (list Z)) (st : lst),
+  feed_chunks st streams = Some (run st (concat streams)).
+Proof. intros. apply feed_chunks_ok. Qed.
+
+Open Scope Z_scope.
+(* non-vacuity: a program with Tc, Tw, Tz, TJ numbers, a form with a Matrix, an ill-typed Tm *)
+Example C05_nonvacuous :
+  let f := font_of 7 [(65, 1#2); (32, 1#4)] (3#5) (-(1#5)) in
+  let form := XForm (1, 0, 0, 1, 10, 20)%Q None [IOp KBT; IOpnd (OName 20); IOpnd (ONum 10); IOp KTf; IOpnd (OStr [65]); IOp KTj] in
+  let res := Res [(20, f)] [] [(30, form)] in
+  let prog := [IOp KBT; IOpnd (OName 20); IOpnd (ONum 10); IOp KTf; IOpnd (ONum 2); IOp KTc;
+               IOpnd (ONum 50); IOp KTz; IOpnd (OName 9); IOpnd (ONum 1); IOp KTm;
+               IOpnd (OStr [65; 32]); IOp KTj; IOpnd (OName 30); IOp KDo;
+               IOpnd (OArr [ONum (-1000); OStr [65]]); IOp KTJ] in
+  map (fun e => match e with EGlyph c (_, _, _, _, x, y) _ _ _ _ _ _ => Some (c, Qred x, Qred y) | _ => None end)
+      (run_page 3 ident res prog)
+  = [Some (65, 0%Q, 0%Q); Some (32, (7 # 2)%Q, 0%Q); None; Some (65, 10%Q, 20%Q); None; Some (65, (43 # 4)%Q, 0%Q)].
+Proof. vm_compute. reflexivity. Qed.
+
+Print Assumptions C05_Td.
+Print Assumptions C05_TD.
+Print Assumptions C05_Tstar.
+Print Assumptions C05_advance.
+Print Assumptions C05_glyph_matrix.
+Print Assumptions C05_displacement.
+Print Assumptions C05_glyph_positions.
+Print Assumptions C05_form_neutral.
+Print Assumptions C05_sync_invariant.
+Print Assumptions C05_illtyped_noop.
+Print Assumptions C05_missing_operands.
+Print Assumptions C05_qQ_restores.
+Print Assumptions C05_split_streams.
+Print Assumptions C05_nonvacuous.
